@@ -72,7 +72,7 @@ where
         if idx >= self.len() {
             ret = None;
         } else {
-            let mut limit = idx + len;
+            let mut limit = idx.saturating_add(len);
 
             ret = Some(limit);
 
